@@ -776,8 +776,7 @@ func (h *c26Harness) Project() (any, error) {
 		"heldSet":  held,
 		"sleepers": sleepers,
 		"c": map[string]any{"r20x": g(k.counterResponse20x), "respErr": g(k.counterResponseErrors) + g(k.counterEnqueueErrors),
-			"sendErr": g(k.counterSendErrors), "retries": g(k.counterSendRetries), "sent": g(k.counterBatchesSent),
-			"msgs": g(k.counterMessagesSent), "decErr": g(k.counterResponseDecodeErrors), "gauge": h.met.read(h.met.upd, k.updownQueuedItems)},
+			"sendErr": g(k.counterSendErrors), "retries": g(k.counterSendRetries), "gauge": h.met.read(h.met.upd, k.updownQueuedItems)},
 		"errSet":  errs,
 		"stopped": stopped,
 	}
